@@ -110,7 +110,7 @@ Section Adopt.
 
   Lemma ad_r_not_und q : In q stk -> q <> t -> ~ In r (sundeclared (sc_of st q)).
   Proof.
-    intros Hq Hne H. destruct (I_und _ _ _ _ _ I q r Hq H) as (_ & Hh). specialize (Hh Hdr).
+    intros Hq Hne H. destruct (I_und _ _ _ _ _ I q r Hq H) as (_ & Hh & _). specialize (Hh Hdr).
     rewrite ad_rhome in Hh. congruence.
   Qed.
 
